@@ -168,7 +168,7 @@
             (bag-comparator bag)))
 
 (define (bag->list bag)
-  (hash-table-keys (bag-table bag)))
+  (bag-fold cons '() bag))
 
 (define (list->bag comparator list)
   (fold (lambda (elt bag) (bag-adjoin! bag elt)) (bag comparator) list))
